@@ -77,12 +77,12 @@ Definition momi_values (p1 p2 : Z) (src : source) (c0 : candle) (rcs : list cand
 Definition dpo_values (ma : ma_cfg) (src : source) (c0 : candle) (rcs : list candle) : list F :=
   let s0 := c_source c0 src in let rs := srcs src rcs in
   [fsub (hget s0 rs (Z.to_nat (ma_period ma / 2 + 1))) (ma_def ma s0 rs)].
-(* ---- RSI: average gain / (average gain + average loss) of the one-step changes (0.5 when both vanish) *)
+(* ---- RSI: average gain / (average gain + average loss) of the one-step changes (0.5 when their sum vanishes) *)
 Definition rsi_values (ma : ma_cfg) (src : source) (c0 : candle) (rcs : list candle) : list F :=
   let ch := diffs (c_source c0 src) (srcs src rcs) in
   let pos := ma_def ma f0 (map (fun d => fmax d f0) ch) in
   let neg := fneg (ma_def ma f0 (map (fun d => fmin d f0) ch)) in
-  [if fne pos f0 || fne neg f0 then fdiv pos (fadd pos neg) else flit 1 2].
+  [if fne (fadd pos neg) f0 then fdiv pos (fadd pos neg) else flit 1 2].
 (* ---- Chande momentum oscillator over the last n one-step changes *)
 Definition cmo_values (n : Z) (src : source) (c0 : candle) (rcs : list candle) : list F :=
   let ch := hget f0 (diffs (c_source c0 src) (srcs src rcs)) in
